@@ -157,16 +157,32 @@ def _overload_agreement(ctx, cls, file, fn, given_args):
              'THDM::get_alpha_em': lambda i, a, t: al, 'THDM::get_MFe': lambda i, a, t: mm,
              'THDM::get_Mhh': lambda i, a, t: mH, 'THDM::get_MAh': lambda i, a, t: mA, 'THDM::get_MHm': lambda i, a, t: mHp}
     it = Interp(ctx.w, mode='sym', stubs=stubs, assumptions=pre)
+    # every other function of the (const) model is a ghost constant; the total is tied to its parts by the
+    # callee contract of calculate_amu_2loop (sum of parts: proved by C15)
+    parts = {}
+    def auto(it_, name, args):
+        from gm2v.values import Obj
+        last = name.split('::')[-1]
+        if args and isinstance(args[0], Obj) and not last.startswith('calculate_uncertainty'):
+            parts.setdefault(last, z3.Real('ghost_' + last))
+            return parts[last]
+        return NotImplemented
+    it.auto_stub = auto
     m = it.new_object(cls)
     p1 = it.run_paths(lambda: it.call(fn, [m], file=file))
     given = [{'a1': a1, 'a2': a2}[g] for g in given_args]
     p2 = it.run_paths(lambda: it.call(fn, [m] + given, file=file))
     ctx.merge_rules(it)
     n = 0
+    rel = []
+    if cls != 'THDM':
+        g = lambda k: parts.get(k, z3.Real('ghost_' + k))
+        rel = [a2 == g('amu2LFSfapprox') + g('amu2LChipmPhotonic') + g('amu2LChi0Photonic') + s + c]
+        ctx.assume_note('callee contract: calculate_amu_2loop(model) == amu2LFSfapprox + amu2LChipmPhotonic + amu2LChi0Photonic + amu2LaSferm + amu2LaCha (C15)')
     for (s1, r1, e1) in p1:
         for (s2, r2, e2) in p2:
             n += 1
-            ctx.prove('pair%d' % n, pre + s1.pc + s2.pc + s1.axioms + s2.axioms, z3real(r1) == z3real(r2), check_vacuity=False)
+            ctx.prove('pair%d' % n, pre + rel + s1.pc + s2.pc + s1.axioms + s2.axioms, z3real(r1) == z3real(r2), check_vacuity=False)
 
 for _cls, _file, _fn, _given in [('MSSMNoFV_onshell', MU, 'calculate_uncertainty_amu_0loop', ['a1']),
                                  ('MSSMNoFV_onshell', MU, 'calculate_uncertainty_amu_1loop', ['a2']),
